@@ -100,7 +100,11 @@ void print_dualstack() {
             CScript::const_iterator it = env->script.begin();
             opcodetype opcode;
             valtype vchPushValue, p2sh_script_payload;
-            while (env->script.GetOp(it, opcode, vchPushValue)) { p2sh_script_payload = vchPushValue; }
+            while (env->script.GetOp(it, opcode, vchPushValue)) {
+                p2sh_script_payload = vchPushValue;
+                // OP_1NEGATE and OP_1..OP_16 carry no push data but leave a one-byte item - the redeem script, if they come last
+                if (opcode == OP_1NEGATE || (opcode >= OP_1 && opcode <= OP_16)) p2sh_script_payload = CScriptNum((int)opcode - (int)(OP_1 - 1)).getvch();
+            }
             p2sh_script = CScript(p2sh_script_payload.begin(), p2sh_script_payload.end());
         }
     }
